@@ -10,6 +10,13 @@
 (*               -- registrations, refreshes, retractions, defective ones  *)
 (*   Tick        time passes: the "short" presentations expire             *)
 (*   ServerReset the server loses its database (new seed on first use)     *)
+(*   ServerRestart / ClientRestart  the node PROCESS stops and is started  *)
+(*               again ON THE SAME DATABASE (Module.Shutdown; New,         *)
+(*               Configure, Start -> newSQLStore): everything the module   *)
+(*               keeps is in SQL, so the service row (seed, timestamp) and *)
+(*               the presentation rows of the earlier incarnation must be  *)
+(*               found as they were left.  Not a server event: the list,   *)
+(*               the seed and the timestamps are the same afterwards       *)
 (*   PollFirst   clientUpdater.updateService: getTimestamp, then the FIRST *)
 (*               statement of sqlStore.get on the server                   *)
 (*   PollSecond  the SECOND statement of sqlStore.get (no transaction      *)
@@ -53,6 +60,9 @@ CONSTANTS
     RefetchOnSeedChange,  \* (as implemented TRUE since the repair of F-C16-seedwipe; FALSE = the repaired deviation):
                           \*   after a wipe the response fetched with the OLD timestamp (> 0) is discarded and the
                           \*   client starts over from 0 at the next poll (client.go: timestamp re-read after the wipe)
+    MaxRestarts,          \* bound on restarts of the server / client process on its database (together)
+    RestartKeepsService,  \* start-up leaves an existing discovery_service row alone (as implemented: TRUE, FirstOrCreate);
+                          \*   FALSE: start-up (re)initialises it -- seed unset, timestamp 0 -- while the presentation rows stay
     SupersedeMustOutlive, \* DEVIATION (as implemented FALSE): a presentation that expires before the one it
                           \*   replaces is refused
     Hist
@@ -67,13 +77,18 @@ VARIABLES
     epoch, seeded,        \* server incarnation; whether discovery_service.seed has been set (first add)
     ts, rows,             \* discovery_service.last_lamport_timestamp; discovery_presentation of the server
     events, defects, resets, outages,
+    restarts,             \* restarts of either process so far
+    srvUpAt, cliUpAt,     \* history: the service timestamp the running server / client incarnation found at its start
     cseed, cts, crows,    \* the client's discovery_service row and discovery_presentation table
     poll,                 \* the poll in flight
     quiet, dirty,         \* history: consecutive completed polls without a server event; event during this poll
     hist
 
-vars == <<now, epoch, seeded, ts, rows, events, defects, resets, outages, cseed, cts, crows, poll, quiet, dirty, hist>>
-view == <<now, epoch, seeded, ts, rows, events, defects, resets, outages, cseed, cts, crows, poll, quiet, dirty>>
+vars == <<now, epoch, seeded, ts, rows, events, defects, resets, outages, restarts, srvUpAt, cliUpAt, cseed, cts, crows, poll, quiet, dirty, hist>>
+\* exhaustive checking: WHERE in its history a process was restarted is no part of the state
+view == <<now, epoch, seeded, ts, rows, events, defects, resets, outages, restarts, cseed, cts, crows, poll, quiet, dirty>>
+\* behaviour generation: one witness per terminal state AND per point of the history at which the processes were restarted
+viewGen == <<view, srvUpAt, cliUpAt>>
 
 Log(e) == hist' = IF Hist THEN Append(hist, e) ELSE hist
 
@@ -82,6 +97,7 @@ Idle == [phase |-> "idle", after |-> 0, rts |-> 0, rseed |-> 0, rows |-> {}]
 Init ==
     /\ now = 0 /\ epoch = 1 /\ seeded = FALSE /\ ts = 0 /\ rows = {}
     /\ events = 0 /\ defects = 0 /\ resets = 0 /\ outages = 0
+    /\ restarts = 0 /\ srvUpAt = 0 /\ cliUpAt = 0
     /\ cseed = 0 /\ cts = 0 /\ crows = {}
     /\ poll = Idle /\ quiet = 0 /\ dirty = FALSE
     /\ hist = <<>>
@@ -128,14 +144,14 @@ Submit(s, kind, e, d, o, acc) ==
             /\ defects' = IF CountDefects THEN defects + 1 ELSE defects
             /\ UNCHANGED <<rows, ts, seeded, events, quiet, dirty>>
     /\ Log([a |-> "Submit", s |-> s, kind |-> kind, e |-> e, d |-> d, o |-> o, res |-> IF acc THEN "accepted" ELSE "rejected"])
-    /\ UNCHANGED <<now, epoch, resets, outages, cseed, cts, crows, poll>>
+    /\ UNCHANGED <<now, epoch, resets, outages, restarts, srvUpAt, cliUpAt, cseed, cts, crows, poll>>
 
 Tick ==
     /\ now < MaxTicks /\ events < MaxEvents
     /\ now' = now + 1 /\ events' = events + 1
     /\ Touch
     /\ Log([a |-> "Tick"])
-    /\ UNCHANGED <<epoch, seeded, ts, rows, defects, resets, outages, cseed, cts, crows, poll>>
+    /\ UNCHANGED <<epoch, seeded, ts, rows, defects, resets, outages, restarts, srvUpAt, cliUpAt, cseed, cts, crows, poll>>
 
 \* a reset does not straddle the two statements of a running get (the process is gone)
 ServerReset ==
@@ -143,8 +159,36 @@ ServerReset ==
     /\ epoch' = epoch + 1 /\ seeded' = FALSE /\ ts' = 0 /\ rows' = {}
     /\ resets' = resets + 1 /\ events' = events + 1
     /\ Touch
+    /\ srvUpAt' = 0
     /\ Log([a |-> "ServerReset"])
-    /\ UNCHANGED <<now, defects, outages, cseed, cts, crows, poll>>
+    /\ UNCHANGED <<now, defects, outages, restarts, cliUpAt, cseed, cts, crows, poll>>
+
+(***************************************************************************)
+(* Restart of a process on its database.  The module keeps nothing but the *)
+(* database; start-up runs newSQLStore, which makes sure every definition  *)
+(* has a discovery_service row.  A get that is executing dies with the     *)
+(* server process (no restart between its two statements); the client is   *)
+(* restarted between two polls.                                            *)
+(***************************************************************************)
+ServerRestart ==
+    /\ restarts < MaxRestarts /\ poll.phase # "mid"
+    /\ restarts' = restarts + 1 /\ srvUpAt' = ts
+    /\ IF RestartKeepsService
+       THEN UNCHANGED <<epoch, seeded, ts, quiet, dirty>>
+       ELSE \* the next add invents a new seed and starts counting at 1 again, next to the rows that are still there
+            /\ epoch' = epoch + 1 /\ seeded' = FALSE /\ ts' = 0
+            /\ Touch
+    /\ Log([a |-> "ServerRestart"])
+    /\ UNCHANGED <<now, rows, events, defects, resets, outages, cliUpAt, cseed, cts, crows, poll>>
+
+ClientRestart ==
+    /\ restarts < MaxRestarts /\ poll.phase = "idle"
+    /\ restarts' = restarts + 1 /\ cliUpAt' = cts
+    /\ IF RestartKeepsService
+       THEN UNCHANGED <<cseed, cts, quiet>>
+       ELSE cseed' = 0 /\ cts' = 0 /\ quiet' = 0
+    /\ Log([a |-> "ClientRestart"])
+    /\ UNCHANGED <<now, epoch, seeded, ts, rows, events, defects, resets, outages, srvUpAt, crows, poll, dirty>>
 
 (***************************************************************************)
 (* A client poll                                                           *)
@@ -158,7 +202,7 @@ PollFirst ==
                ELSE [phase |-> "mid", after |-> cts, rts |-> 0, rseed |-> 0, rows |-> Newer(cts)]
     /\ dirty' = FALSE
     /\ Log([a |-> "PollFirst"])
-    /\ UNCHANGED <<now, epoch, seeded, ts, rows, events, defects, resets, outages, cseed, cts, crows, quiet>>
+    /\ UNCHANGED <<now, epoch, seeded, ts, rows, events, defects, resets, outages, restarts, srvUpAt, cliUpAt, cseed, cts, crows, quiet>>
 
 PollSecond ==
     /\ poll.phase = "mid"
@@ -166,7 +210,7 @@ PollSecond ==
                THEN [poll EXCEPT !.phase = "resp", !.rows = Newer(poll.after)]
                ELSE [poll EXCEPT !.phase = "resp", !.rts = ts, !.rseed = SrvSeed]
     /\ Log([a |-> "PollSecond"])
-    /\ UNCHANGED <<now, epoch, seeded, ts, rows, events, defects, resets, outages, cseed, cts, crows, quiet, dirty>>
+    /\ UNCHANGED <<now, epoch, seeded, ts, rows, events, defects, resets, outages, restarts, srvUpAt, cliUpAt, cseed, cts, crows, quiet, dirty>>
 
 \* the client runs the same pipeline, at ITS time and on ITS table: a retraction never validates there because
 \* add() has just deleted the presentation it refers to
@@ -207,7 +251,7 @@ ClientApply(out) ==
     /\ dirty' = FALSE
     /\ poll' = Idle
     /\ Log([a |-> "ClientApply", out |-> out])
-    /\ UNCHANGED <<now, epoch, seeded, ts, rows, events, defects, resets>>
+    /\ UNCHANGED <<now, epoch, seeded, ts, rows, events, defects, resets, restarts, srvUpAt, cliUpAt>>
 
 \* clientRegistrationManager.validate(): allPresentations(validated = false), verifier on each, updateValidated
 Passes(c) == c.kind = "reg" /\ ~Expired(c.exp) /\ (c.d = "none" \/ c.d \notin Checks)
@@ -223,12 +267,13 @@ ClientValidate ==
                     /\ Cardinality(pick) = Cardinality(pass)
                     /\ crows' = (crows \ (pick \cup pass)) \cup {[c EXCEPT !.val = (c \in pick), !.own = (c \in pass)] : c \in pick \cup pass}
     /\ Log([a |-> "ClientValidate"])
-    /\ UNCHANGED <<now, epoch, seeded, ts, rows, events, defects, resets, outages, cseed, cts, poll, quiet, dirty>>
+    /\ UNCHANGED <<now, epoch, seeded, ts, rows, events, defects, resets, outages, restarts, srvUpAt, cliUpAt, cseed, cts, poll, quiet, dirty>>
 
 Next ==
     \/ \E s \in Subjects, k \in Kinds, e \in ExpClasses, d \in {"none"} \cup Defects, o \in CredOrders :
             Submit(s, k, e, d, o, Pipeline(s, k, e, d))      \* the verdict does not look at the order
     \/ Tick \/ ServerReset
+    \/ ServerRestart \/ ClientRestart
     \/ PollFirst \/ PollSecond \/ (\E out \in BOOLEAN : ClientApply(out))
     \/ ClientValidate
 
@@ -241,16 +286,22 @@ FairSpec == Spec /\ WF_vars(PollFirst \/ PollSecond \/ ClientApply(FALSE)) /\ WF
 TypeOK ==
     /\ now \in 0..1 /\ ts \in 0..MaxEvents /\ cts \in 0..(2 * MaxEvents)
     /\ poll.phase \in {"idle", "mid", "resp"} /\ quiet \in 0..2
-    /\ \A r \in rows : r.s \in Subjects /\ r.ts \in 1..ts
+    /\ restarts \in 0..MaxRestarts /\ srvUpAt \in 0..MaxEvents /\ cliUpAt \in 0..(2 * MaxEvents)
+    /\ \A r \in rows : r.s \in Subjects /\ r.ts >= 1
 
 \* reference predicate: a listed row carries no defect of any class (independent of which checks ran)
 ListedOnlyVerified == \A r \in rows : r.d = "none"
 OneLiveEntryPerSubject == \A r1, r2 \in rows : r1.s = r2.s => r1 = r2
 TimestampsUnique == \A r1, r2 \in rows : r1.ts = r2.ts => r1 = r2
+\* no listed entry is ahead of the timestamp the service hands to its clients
+TimestampCoversRows == \A r \in rows : r.ts <= ts
+\* only the loss of the database (ServerReset) starts the timestamps over -- a restart of the process does not
 TimestampsStrictlyIncrease ==
-    [][epoch' = epoch => /\ ts' >= ts
+    [][resets' = resets => /\ ts' >= ts
                          /\ \A r \in rows' \ rows : r.ts = ts' /\ ts' > ts /\ \A q \in rows : q.ts < r.ts]_vars
 \* a retraction is accepted only from a signer that has an entry
+\* a restart is no event of the list: the running incarnation lists what its predecessor listed, under the same seed
+RestartKeepsList == [][restarts' # restarts => rows' = rows /\ ts' = ts /\ seeded' = seeded /\ epoch' = epoch]_vars
 RetractionOnlyBySigner == [][\A r \in rows' \ rows : r.kind = "ret" => \E q \in rows : q.s = r.s]_vars
 
 SearchResult == {c \in crows : (SearchValidatedOnly => c.val) /\ (SearchUnexpiredOnly => ~Expired(c.exp))}
